@@ -1,5 +1,5 @@
-"""Interface facts of the installed CasADi (run under /venv/bin/python by the check): which names exist on MX."""
+"""Interface facts of the installed CasADi (run under /venv/bin/python by the check): which names exist on MX, and which functions the casadi module itself offers."""
 import json, sys
 import casadi as ca
 x = ca.MX.sym("x")
-print(json.dumps({"casadi_version": ca.__version__, "mx_attributes": sorted(n for n in dir(x)), "module_functions": sorted(n for n in dir(ca) if not n.startswith("_"))[:0]}))
+print(json.dumps({"casadi_version": ca.__version__, "mx_attributes": sorted(n for n in dir(x)), "module_functions": sorted(n for n in dir(ca) if not n.startswith("_") and callable(getattr(ca, n)) and not isinstance(getattr(ca, n), type))}))
